@@ -197,3 +197,18 @@ def newLayer2 : NewConn Int :=
   { i := 0, j := 0, k := 1, state := .SHUT, dir := .X, ctf := ctf0, fromDeck := true, depth := 110 }
 
 end OpmVerif.Conns.Ex
+
+namespace OpmVerif.Conns.Ex
+open OpmVerif.Peaceman
+
+/-- a real-number well: every cell is the 3 × 4 × 2 example cell, every COMPDAT record fully
+defaulted with skin 1 -/
+noncomputable def gridR : Grid ℝ := fun _ _ _ => some (Peaceman.Ex.cell, 100)
+noncomputable def envR : Env ℝ :=
+  { F := realFns, one := 1, grid := gridR, headI := 0, headJ := 0, ord := .TRACK }
+noncomputable def recR : CompdatRec ℝ := { iRaw := 0, jRaw := 0, k1 := 1, k2 := 3, state := .OPEN, inp := Peaceman.Ex.dflt }
+noncomputable def opsR : List (Op ℝ) :=
+  [.compdat recR, .wpimult 2 ⟨none, none, some 2, none, none⟩, .endStep, .compdat recR, .wpimult 3 ⟨none, none, none, none, none⟩, .endStep]
+
+end OpmVerif.Conns.Ex
+
